@@ -149,8 +149,9 @@ def insertByS (c : Cross) : List Cross → List Cross
 
 def sortByS (l : List Cross) : List Cross := l.foldl (fun acc c => insertByS c acc) []
 
-/-- `generate_intersection_data` for the segment `va → vb`: the intersections in the order of their
-    identifiers (`start .. start + dist`), i.e. from `va` to `vb` -/
+/-- `generate_intersection_data` for the segment `va → vb`: the intersections in the order of the
+    vertex chain the code builds (`vs`, the keys / values of `new_segments`), i.e. from `va` to `vb`;
+    see `crossingsMeta` for the order of the identifiers -/
 def crossingsOf (g : GGrid) (eps : Rat) (va vb : Pt) : List Cross :=
   let c1 := cellOf g va
   let c2 := cellOf g vb
@@ -184,6 +185,18 @@ def crossingsOf (g : GGrid) (eps : Rat) (va vb : Pt) : List Cross :=
           diagPick eps i j (vCross g va vb (decide (0 < i)) x y) (hCross g va vb (decide (0 < j)) x y)))
         -- `intersec_data.iter_mut().zip(i_ids)`: at most `dist` of them receive an identifier
         (sortByS (cand.filter (fun c => decide (0 ≤ c.s ∧ c.s ≤ 1)))).take dist
+
+/-- `intersection_metadata[start .. start + dist]` for the segment: the same intersections *indexed by
+    their identifier*.  The identifiers are handed out with `range.zip(i_ids)` before `tmp.rev()`
+    reverses the vertex chain, so in the two backward straight cases (`(i, 0)` with `i ≤ -2`, `(0, j)`
+    with `j ≤ -2`) they run against the segment; everywhere else identifier order = segment order. -/
+def crossingsMeta (g : GGrid) (eps : Rat) (va vb : Pt) : List Cross :=
+  let c1 := cellOf g va
+  let c2 := cellOf g vb
+  let i : Int := (c2.1 : Int) - (c1.1 : Int)
+  let j : Int := (c2.2 : Int) - (c1.2 : Int)
+  if (j = 0 ∧ i < -1) ∨ (i = 0 ∧ j < -1) then (crossingsOf g eps va vb).reverse
+  else crossingsOf g eps va vb
 
 /-- the point of the segment at parameter `s` -/
 def segPoint (va vb : Pt) (s : Rat) : Pt := (va.1 + s * (vb.1 - va.1), va.2 + s * (vb.2 - va.2))
